@@ -122,6 +122,32 @@ Proof.
   unfold contain in A, B. apply N.eqb_eq in A, B. rewrite <- A. rewrite N.land_comm. exact B.
 Qed.
 
+(* ---------- items of a log ---------- *)
+
+(* what items a log has: the address and every non-nil indexed value at its position *)
+Lemma indexed_items_in vs : forall i k v,
+  nth_error vs k = Some (Some v) -> In (indexed_item (i + N.of_nat k) v) (indexed_items i vs).
+Proof.
+  induction vs as [|o vs IH]; intros i k v Hn.
+  - destruct k; discriminate.
+  - destruct k as [|k].
+    + cbn in Hn. inversion Hn; subst. cbn [indexed_items]. rewrite N.add_0_r. now left.
+    + cbn [nth_error] in Hn. specialize (IH (i + 1) k v Hn).
+      replace (i + N.of_nat (S k)) with (i + 1 + N.of_nat k) by lia.
+      destruct o; cbn [indexed_items]; [now right|assumption].
+Qed.
+
+Lemma items_of_addr l : l_indexed l <> [] -> In (addr_item (l_addr l)) (items_of l).
+Proof. unfold items_of. destruct (l_indexed l); [congruence|intros _; now left]. Qed.
+
+Lemma items_of_indexed l k v :
+  nth_error (l_indexed l) k = Some (Some v) -> In (indexed_item (N.of_nat k) v) (items_of l).
+Proof.
+  intro Hn. unfold items_of. destruct (l_indexed l) as [|o vs] eqn:E.
+  - destruct k; discriminate.
+  - right. apply (indexed_items_in (o :: vs) 0 k v Hn).
+Qed.
+
 (* ---------- adding items ---------- *)
 
 Section WithHash.
@@ -215,30 +241,6 @@ Section WithHash.
       split.
       + intros [A B] it [E|Hin]; [now subst|auto].
       + intros Hs. split; [apply Hs; now left|intros it Hin; apply Hs; now right].
-  Qed.
-
-  (* what items a log has: the address and every non-nil indexed value at its position *)
-  Lemma indexed_items_in vs : forall i k v,
-    nth_error vs k = Some (Some v) -> In (indexed_item (i + N.of_nat k) v) (indexed_items i vs).
-  Proof.
-    induction vs as [|o vs IH]; intros i k v Hn.
-    - destruct k; discriminate.
-    - destruct k as [|k].
-      + cbn in Hn. inversion Hn; subst. cbn [indexed_items]. rewrite N.add_0_r. now left.
-      + cbn [nth_error] in Hn. specialize (IH (i + 1) k v Hn).
-        replace (i + N.of_nat (S k)) with (i + 1 + N.of_nat k) by lia.
-        destruct o; cbn [indexed_items]; [now right|assumption].
-  Qed.
-
-  Lemma items_of_addr l : l_indexed l <> [] -> In (addr_item (l_addr l)) (items_of l).
-  Proof. unfold items_of. destruct (l_indexed l); [congruence|intros _; now left]. Qed.
-
-  Lemma items_of_indexed l k v :
-    nth_error (l_indexed l) k = Some (Some v) -> In (indexed_item (N.of_nat k) v) (items_of l).
-  Proof.
-    intro Hn. unfold items_of. destruct (l_indexed l) as [|o vs] eqn:E.
-    - destruct k; discriminate.
-    - right. apply (indexed_items_in (o :: vs) 0 k v Hn).
   Qed.
 
   (* every bit index is below 2048, so a bloom fits the 256 bytes of LogBytes *)
@@ -390,6 +392,24 @@ Section WithCodec.
     = Some (contain b q).
   Proof. now rewrite compress_transparent. Qed.
 End WithCodec.
+
+(* ---------- statements packaged for Prop_C26 ---------- *)
+
+Lemma merge_comm_assoc_idem a b c :
+  merge a b = merge b a /\ merge (merge a b) c = merge a (merge b c) /\ merge a a = a.
+Proof. exact (conj (merge_comm a b) (conj (merge_assoc a b c) (merge_idem a))). Qed.
+
+Lemma contain_mono a b q :
+  contain a q = true -> contain (merge a b) q = true /\ contain (merge b a) q = true.
+Proof. intro Hc. exact (conj (contain_merge_l a b q Hc) (contain_merge_r b a q Hc)). Qed.
+
+Lemma block_log_bytes_lossless (H : bytes -> N) receipts :
+  bloom_of_bytes (bloom_log_bytes (merge_all (map (receipt_bloom H) receipts)))
+  = merge_all (map (receipt_bloom H) receipts).
+Proof.
+  apply bloom_log_bytes_roundtrip, merge_all_lt.
+  intros b Hb. apply in_map_iff in Hb as [ls [<- _]]. apply receipt_bloom_lt.
+Qed.
 
 (* ---------- non-vacuity examples ---------- *)
 
